@@ -252,3 +252,69 @@ pub fn parse_sam_line(line: &[u8], hdr: &HeaderDesc) -> Result<RecDesc, String> 
     }
     Ok(r)
 }
+
+/// A deliberately dumb header reader: lines split at LF, fields at TAB, `TAG:value` at the first
+/// colon; `@CO` keeps everything after the first TAB. Lines must come grouped as `header_text`
+/// writes them only in so far as @HD must be first; other kinds may interleave (each kind keeps its
+/// own order).
+pub fn parse_header_text(text: &[u8]) -> Result<HeaderDesc, String> {
+    let mut h = HeaderDesc::default();
+    if text.is_empty() {
+        return Ok(h);
+    }
+    let body = text.strip_suffix(b"\n").ok_or("header text does not end with a newline")?;
+    for (ln, line) in body.split(|b| *b == b'\n').enumerate() {
+        if line.len() < 3 || line[0] != b'@' {
+            return Err(format!("line {ln}: not a header line"));
+        }
+        let kind = &line[1..3];
+        if kind == b"CO" {
+            if line.get(3) != Some(&b'\t') {
+                return Err(format!("line {ln}: @CO without TAB"));
+            }
+            h.co.push(line[4..].to_vec());
+            continue;
+        }
+        let mut fields: Vec<(Tag2, Vec<u8>)> = Vec::new();
+        for f in line[3..].split(|b| *b == b'\t').skip(1) {
+            if f.len() < 4 || f[2] != b':' {
+                return Err(format!("line {ln}: malformed field {:?}", String::from_utf8_lossy(f)));
+            }
+            fields.push(([f[0], f[1]], f[3..].to_vec()));
+        }
+        if line.get(3) != Some(&b'\t') {
+            return Err(format!("line {ln}: no fields"));
+        }
+        let mut take = |t: &[u8; 2]| -> Result<Vec<u8>, String> {
+            let i = fields.iter().position(|e| &e.0 == t).ok_or_else(|| format!("line {ln}: no {} field", String::from_utf8_lossy(t)))?;
+            Ok(fields.remove(i).1)
+        };
+        match kind {
+            b"HD" => {
+                if ln != 0 {
+                    return Err(format!("line {ln}: @HD is not the first line"));
+                }
+                let vn = take(b"VN")?;
+                let s = std::str::from_utf8(&vn).map_err(|_| "VN not text")?;
+                let (a, b) = s.split_once('.').ok_or("VN without dot")?;
+                let version = (a.parse::<u32>().map_err(|_| "VN major")?, b.parse::<u32>().map_err(|_| "VN minor")?);
+                h.hd = Some(HdDesc { version, tags: fields });
+            }
+            b"SQ" => {
+                let name = take(b"SN")?;
+                let len = num::<u64>(&take(b"LN")?, "LN")?;
+                h.sq.push(SqDesc { name, len, tags: fields });
+            }
+            b"RG" => {
+                let id = take(b"ID")?;
+                h.rg.push(MapDesc { id, tags: fields });
+            }
+            b"PG" => {
+                let id = take(b"ID")?;
+                h.pg.push(MapDesc { id, tags: fields });
+            }
+            k => return Err(format!("line {ln}: unknown record type @{}", String::from_utf8_lossy(k))),
+        }
+    }
+    Ok(h)
+}
